@@ -448,12 +448,12 @@ fn c15_l0_stream_header() {
 macro_rules! l0_typestate {
     ($name:ident, $mk:expr) => {
         #[kani::proof]
-        #[kani::unwind(12)]
+        #[kani::unwind(8)]
         fn $name() {
-            let buf: [u8; 9] = kani::any();
+            let buf: [u8; 6] = kani::any();
             let pre: usize = kani::any();
             let len: usize = kani::any();
-            kani::assume(pre <= 1 && len <= 8);
+            kani::assume(pre <= 1 && len <= 5);
             let whole = &buf[..pre + len];
             let mut sa = $mk;
             let mut sb = $mk;
@@ -468,7 +468,7 @@ macro_rules! l0_typestate {
                     assert!(kind_id(fa.kind()) == kind_id(fb.kind()) && fa.payload().len() == fb.payload().len());
                     assert!(eq_prefix(fa.payload(), fb.payload(), fa.payload().len()));
                     assert!(r.offset() == pre + consumed, "buffered typestate reader advanced by a different amount");
-                    kani::cover!(consumed >= 6, "frame after a skipped/long prefix");
+                    kani::cover!(consumed >= 4, "frame after a skipped frame / with payload");
                 }
                 (Ok(None), Ok(None)) => {
                     assert!(r.offset() == pre, "buffered typestate reader advanced on incomplete input");
@@ -487,7 +487,7 @@ macro_rules! l0_typestate {
 
 // @h props=C15 tier=quick t=1800 sub=L0-typestate-control
 // @fn wtransport-proto/src/stream.rs StreamUniRemoteH3::{read_frame,read_frame_from_buffer}
-// @bound every byte string of length 0..=8 after a parent offset 0..=1
+// @bound every byte string of length 0..=5 after a parent offset 0..=1
 // @oracle read_frame == read_frame_from_buffer (value, error code); offset unchanged on None/Err, advanced by the consumed bytes on Some
 l0_typestate!(c15_l0_typestate_control, control_stream());
 
